@@ -23,7 +23,8 @@ Fixpoint bytes_eqb (a b : bytes) : bool :=
 Inductive value :=
 | VNull | VBool (b : bool) | VInt (z : Z) | VFloat (txt : bytes) | VStr (s : bytes)
 | VList (l : list value)
-| VMap (l : list (bytes * value)).
+| VMap (l : list (bytes * value))
+| VArr (l : list (bytes * value)).   (* ArrayValue whose slots may carry a name (ZVal.Name); [] = no name *)
 
 (* ------------------------------------------------------------------ decimal text *)
 (* strconv.Itoa / fmt %d *)
@@ -48,12 +49,47 @@ Definition val_digits (ds : bytes) : N := fold_left (fun acc d => acc * 10 + (d 
 Definition max_int : N := 9223372036854775807.
 
 (* ------------------------------------------------------------------ serialize.go *)
+(* data.ParseIntArrayKeyName: strconv.Atoi succeeds and strconv.Itoa gives the name back *)
+Definition take_sign0 (s : bytes) : bool * bytes :=
+  match s with
+  | x :: t => if x =? 45 then (true, t) else if x =? 43 then (false, t) else (false, s)
+  | [] => (false, s)
+  end.
+Definition atoi (name : bytes) : option Z :=
+  let (neg, r) := take_sign0 name in
+  let (ds, rest) := span_digits r in
+  match ds, rest with
+  | _ :: _, [] => let m := val_digits ds in
+                  if neg then (if m <=? max_int + 1 then Some (- Z.of_N m)%Z else None)
+                  else (if m <=? max_int then Some (Z.of_N m) else None)
+  | _, _ => None
+  end.
+Definition int_name (name : bytes) : option Z :=
+  match atoi name with
+  | Some z => if bytes_eqb (dec_Z z) name then Some z else None
+  | None => None
+  end.
+(* the key serialize() writes for slot number idx *)
+Definition slot_key (idx : N) (name : bytes) : value :=
+  match int_name name with
+  | Some z => VInt z
+  | None => match name with [] => VInt (Z.of_N idx) | _ => VStr name end
+  end.
+
 Definition str_lit (s : bytes) : bytes :=       (* makeSerializedString: s:<byte length>:"<bytes>"; *)
   [115; 58] ++ dec_N (N.of_nat (length s)) ++ [58; 34] ++ s ++ [34; 59].
 
 Definition opt_concat (l : list (option bytes)) : option bytes :=
   fold_right (fun x acc => match x, acc with Some a, Some b => Some (a ++ b) | _, _ => None end)
              (Some []) l.
+
+(* the text of a slot key: i:<n>; or s:<len>:"<name>"; *)
+Definition key_text (k : value) : bytes :=
+  match k with
+  | VInt z => [105; 58] ++ dec_Z z ++ [59]
+  | VStr s => str_lit s
+  | _ => []
+  end.
 
 (* phpSerializeValue: (text, ok) *)
 Fixpoint ser (v : value) : option bytes :=
@@ -83,6 +119,18 @@ Fixpoint ser (v : value) : option bytes :=
                                        | Some t => Some (str_lit k ++ t)
                                        | None => None end :: go r
                       end) l in
+      match opt_concat items with
+      | Some body => Some ([97; 58] ++ dec_N (N.of_nat (length l)) ++ [58; 123] ++ body ++ [125])
+      | None => None end
+  | VArr l =>
+      (* the ArrayValue case with slot names: a named slot writes its own key, an unnamed one its position *)
+      let items := (fix go (i : N) (l : list (bytes * value)) : list (option bytes) :=
+                      match l with
+                      | [] => []
+                      | (nm, x) :: r => match ser x with
+                                        | Some t => Some (key_text (slot_key i nm) ++ t)
+                                        | None => None end :: go (i + 1) r
+                      end) 0 l in
       match opt_concat items with
       | Some body => Some ([97; 58] ++ dec_N (N.of_nat (length l)) ++ [58; 123] ++ body ++ [125])
       | None => None end
